@@ -36,7 +36,7 @@ STUBS = [
 OUTSIDE = ['get_param_as_float / as_uuid / as_date / as_datetime / as_json conversions (C or float parsing realizes input)',
            'query strings longer than 4 characters except the structured long patterns', 'the Cython parse_query_string',
            'parameter names outside the {a, g, %, +} alphabet']
-BUDGET = {'quick': 330, 'thorough': 2400}
+BUDGET = {'quick': 330, 'thorough': 900}
 
 STRUCT = '&=,+%'
 
